@@ -361,6 +361,10 @@ func StructureCanon(n ast.Vertex) string {
 	return sb.String()
 }
 
+// FlagKinds: node kinds whose by-reference / variadic / static marker is a token (shared with the generator).
+var FlagKinds = map[string]bool{"Argument": true, "ExprArrayItem": true, "ExprArrowFunction": true, "ExprClosure": true, "ExprClosureUse": true,
+	"Parameter": true, "StmtClassMethod": true, "StmtForeach": true, "StmtFunction": true}
+
 func structureCanon(sb *strings.Builder, n ast.Vertex) {
 	if IsNil(n) {
 		sb.WriteString("nil")
@@ -369,6 +373,26 @@ func structureCanon(sb *strings.Builder, n ast.Vertex) {
 	sb.WriteByte('(')
 	sb.WriteString(Kind(n))
 	fs := Fields(n)
+	if FlagKinds[Kind(n)] {
+		// by-reference, variadic/spread and static are tokens in this AST, but they are part of what the construct IS
+		var fl []string
+		for _, f := range fs {
+			if f.Kind == FTok && f.Tok != nil {
+				switch f.Name {
+				case "AmpersandTkn":
+					fl = append(fl, "&")
+				case "VariadicTkn", "EllipsisTkn":
+					fl = append(fl, "...")
+				case "StaticTkn":
+					fl = append(fl, "static")
+				}
+			}
+		}
+		if len(fl) > 0 {
+			sort.Strings(fl)
+			sb.WriteString("#" + strings.Join(fl, ","))
+		}
+	}
 	idx := make([]int, 0, len(fs))
 	for i, f := range fs {
 		switch f.Kind {
